@@ -67,6 +67,12 @@ CHECKS = {
         note="Trusted: pyvc, z3 (parser + QF_BV), specs/evm_word.py. Assumed: the regexes of refine do not touch other query text (checked on the generated queries only); Path.to_smt2 / extend_path are proved for n <= 3 conditions (bounded in n; the bodies treat conditions opaquely); that every caller adds constraints through Path.append is not under contract.",
         technique="postconditions of the real functions: ground evaluation over the finite symbol domain + SMT validity for all operands; AST symbolic execution (pyvc)",
     ),
+    "C12": dict(
+        text="Deductive, by structural induction on the ABI type with the recursive calls replaced by the contract: Calldata.encode_tuple for items of ARBITRARY sizes and either static flag (arity <= 4): total size, head/tail layout in order, each dynamic item's head word = the byte offset of its tail, static iff no item is dynamic; Calldata.encode per constructor (static leaf = one fresh 256-bit symbol named by the parameter path and type; bytes/string = size symbol + one symbol of 8*pad32(max candidate) bits; T[] = size symbol + tuple encoding of max(candidates) elements each under its own path name; T[k] and tuples = tuple encoding of the components in order; unknown nodes rejected); get_dyn_sizes returns and registers exactly the configured candidates (else the default list of the kind) with a fresh size symbol; create = selector + encoding, size cross-check; process_dyn_params hands every candidate list to the path. Independent-decoder well-formedness and parse_type are bounded stand-ins.",
+        ref="DESIGN.md 4/C12 and 11",
+        note="Trusted: pyvc, z3, the ABI rules as transcribed. Assumed: encode_tuple is proved for arity <= 4 (sizes arbitrary); independence of leaves rests on distinct labels - the path name is proved part of the label, unnamed/equally named parameters differ only by uid() (probabilistic, assumed); `every candidate is explored` is the calldataload contract of the C02 pack; ByteVec append/unwrap run through the interpreter on concrete layouts (C07 not proved). Bounded stand-ins (reported separately): real mk_calldata on random type trees decoded by an independent ABI decoder for every candidate-length choice; parse_type grammar incl. unsupported types.",
+        technique="structural induction by contract: VCs generated from the real source AST (pyvc) per type constructor with symbolic item sizes, z3 LIA; bounded stand-ins: independent ABI decoder, type-string grammar",
+    ),
     "C13": dict(
         text="Deductive + ground: every entry of the assert-cheatcode table (read from the AST) has key = keccak4(signature), is a Forge-std assert form, and the table is complete (76 forms); every *_sig constant equals keccak4 of the signature in its comment; for every table signature the real mk_assert_handler -> vm_assert_* -> mk_cond chain is symbolically executed and its condition proved equivalent, for all 256-bit operands, to the relation the signature names (unsigned/signed, bit equality, length-sensitive equality for bytes/string/arrays), for symbolic operands and for concrete operands of arbitrary content (symbolic python bytes), with the message read from the right slot; the assert and assume arms of hevm_cheat_code.handle are executed as fragments for all 3x3 solver answers (failing state exactly when not proved impossible, carrying exactly Not(cond); assume appends exactly word != 0).",
         ref="DESIGN.md 4/C13",
